@@ -103,7 +103,7 @@ func verifC34Agree(lo, hi int) {
 		vr.Reach("done")
 		return
 	}
-	prog := make([]byte, 2+vr.Param(3, 6))
+	prog := make([]byte, 2+vr.Param(3, 4))
 	prog[0] = byte(version)
 	prog[1] = byte(op)
 	vr.Fill("imm", prog[2:])
@@ -151,54 +151,54 @@ func verifC34Agree(lo, hi int) {
 	vr.Reach("done")
 }
 
-//verif:harness prop=C34 reach=done unwind=70 values=300 budget=420 thorough.budget=2400
+//verif:harness prop=C34 reach=done unwind=70 values=300 budget=420 thorough.budget=2400 thorough.paths=400000
 func VerifC34Agree00() { verifC34Agree(0x00, 0x30) }
 
-//verif:harness prop=C34 reach=done unwind=70 values=300 budget=420 thorough.budget=2400
+//verif:harness prop=C34 reach=done unwind=70 values=300 budget=420 thorough.budget=2400 thorough.paths=400000
 func VerifC34Agree30() { verifC34Agree(0x30, 0x34) }
 
-//verif:harness prop=C34 reach=done unwind=70 values=300 budget=420 thorough.budget=2400
+//verif:harness prop=C34 reach=done unwind=70 values=300 budget=420 thorough.budget=2400 thorough.paths=400000
 func VerifC34Agree34() { verifC34Agree(0x34, 0x38) }
 
-//verif:harness prop=C34 reach=done unwind=70 values=300 budget=420 thorough.budget=2400
+//verif:harness prop=C34 reach=done unwind=70 values=300 budget=420 thorough.budget=2400 thorough.paths=400000
 func VerifC34Agree38() { verifC34Agree(0x38, 0x40) }
 
-//verif:harness prop=C34 reach=done unwind=70 values=300 budget=420 thorough.budget=2400
+//verif:harness prop=C34 reach=done unwind=70 values=300 budget=420 thorough.budget=2400 thorough.paths=400000
 func VerifC34Agree40() { verifC34Agree(0x40, 0x50) }
 
-//verif:harness prop=C34 reach=done unwind=70 values=300 budget=420 thorough.budget=2400
+//verif:harness prop=C34 reach=done unwind=70 values=300 budget=420 thorough.budget=2400 thorough.paths=400000
 func VerifC34Agree50() { verifC34Agree(0x50, 0x58) }
 
-//verif:harness prop=C34 reach=done unwind=70 values=300 budget=420 thorough.budget=2400
+//verif:harness prop=C34 reach=done unwind=70 values=300 budget=420 thorough.budget=2400 thorough.paths=400000
 func VerifC34Agree58() { verifC34Agree(0x58, 0x60) }
 
-//verif:harness prop=C34 reach=done unwind=70 values=300 budget=420 thorough.budget=2400
+//verif:harness prop=C34 reach=done unwind=70 values=300 budget=420 thorough.budget=2400 thorough.paths=400000
 func VerifC34Agree60() { verifC34Agree(0x60, 0x80) }
 
-//verif:harness prop=C34 reach=done unwind=70 values=300 budget=420 thorough.budget=2400
+//verif:harness prop=C34 reach=done unwind=70 values=300 budget=420 thorough.budget=2400 thorough.paths=400000
 func VerifC34Agree80() { verifC34Agree(0x80, 0x82) }
 
-//verif:harness prop=C34 reach=done unwind=70 values=300 budget=420 thorough.budget=2400
+//verif:harness prop=C34 reach=done unwind=70 values=300 budget=420 thorough.budget=2400 thorough.paths=400000
 func VerifC34Agree82() { verifC34Agree(0x82, 0x84) }
 
-//verif:harness prop=C34 reach=done unwind=70 values=300 budget=420 thorough.budget=2400
+//verif:harness prop=C34 reach=done unwind=70 values=300 budget=420 thorough.budget=2400 thorough.paths=400000
 func VerifC34Agree84() { verifC34Agree(0x84, 0x8d) }
 
-//verif:harness prop=C34 reach=done unwind=70 values=300 budget=420 thorough.budget=2400
+//verif:harness prop=C34 reach=done unwind=70 values=300 budget=420 thorough.budget=2400 thorough.paths=400000
 func VerifC34Agree8D() { verifC34Agree(0x8d, 0x8e) }
 
-//verif:harness prop=C34 reach=done unwind=70 values=300 budget=420 thorough.budget=2400
+//verif:harness prop=C34 reach=done unwind=70 values=300 budget=420 thorough.budget=2400 thorough.paths=400000
 func VerifC34Agree8E() { verifC34Agree(0x8e, 0x90) }
 
-//verif:harness prop=C34 reach=done unwind=70 values=300 budget=420 thorough.budget=2400
+//verif:harness prop=C34 reach=done unwind=70 values=300 budget=420 thorough.budget=2400 thorough.paths=400000
 func VerifC34Agree90() { verifC34Agree(0x90, 0xc0) }
 
-//verif:harness prop=C34 reach=done unwind=70 values=300 budget=420 thorough.budget=2400
+//verif:harness prop=C34 reach=done unwind=70 values=300 budget=420 thorough.budget=2400 thorough.paths=400000
 func VerifC34AgreeC0() { verifC34Agree(0xc0, 0xc8) }
 
-//verif:harness prop=C34 reach=done unwind=70 values=300 budget=420 thorough.budget=2400
+//verif:harness prop=C34 reach=done unwind=70 values=300 budget=420 thorough.budget=2400 thorough.paths=400000
 func VerifC34AgreeC8() { verifC34Agree(0xc8, 0xd0) }
 
-//verif:harness prop=C34 reach=done unwind=70 values=300 budget=420 thorough.budget=2400
+//verif:harness prop=C34 reach=done unwind=70 values=300 budget=420 thorough.budget=2400 thorough.paths=400000
 func VerifC34AgreeD0() { verifC34Agree(0xd0, 0x100) }
 
